@@ -74,6 +74,7 @@ type Gen struct {
 	topCt    *Contract // contract of the function under verification
 	dynCount, dynQueries, dynUnknown int
 	fnValues map[string]*ssa.Function // function values taken in this proof context (term -> function)
+	constCell map[string]string // pointer term of a single-assignment local cell -> the value it holds
 	fnResults map[string]*fnResultInfo // function values returned by contracted calls that have an "fnresult" contract
 	trackEsc bool // the function under verification claims noalloc: escaping allocations are counted in a ghost cell
 }
@@ -611,6 +612,7 @@ type Act struct {
 	unrollN  int                       // loops of this (inlined) function are unrolled this many times instead of being cut by invariants
 	unr      *unrollCtx                // the loop being unrolled right now
 	skip     map[*ssa.BasicBlock]bool  // blocks already executed by an unrolling
+	letsAtEntry bool                   // (inlined callee with its own loop invariants) evaluate the contract's lets at entry
 }
 
 // unrollCtx: bookkeeping of one loop while it is unrolled (DESIGN 13.6). Back edges and exit edges of the current iteration are
@@ -892,6 +894,13 @@ func (a *Act) run(args []string, st0 *State, reach0 string) {
 		a.env[k] = v
 	}
 	a.entry = st0.clone()
+	if a.letsAtEntry && a.ct != nil {
+		a.lets = map[string]tv{}
+		for _, l := range a.ct.Lets {
+			e := a.newEnv(st0, nil, nil)
+			a.lets[l.Label] = e.value(e.eval(l.Expr))
+		}
+	}
 	if a.dbg == nil {
 		a.dbg = map[string]ssa.Value{}
 	}
@@ -956,7 +965,10 @@ func (a *Act) run(args []string, st0 *State, reach0 string) {
 				continue
 			}
 			a.exec(instr, st, reach, b)
-			if a.top && a.ct != nil && len(a.ct.Cuts) > 0 {
+			if (a.top || a.letsAtEntry) && a.ct != nil && len(a.ct.Cuts) > 0 {
+				if a.firedCuts == nil {
+					a.firedCuts = map[*Cut]bool{}
+				}
 				a.fireCuts(b, ii, st, reach)
 			}
 		}
